@@ -75,6 +75,11 @@ def val_term(v, st):
         return "(bvadd %s %s)" % (R(st, v["r"]), bv32(v["k"]))
     if t == "Addr":
         return "la_%s" % re.sub(r"\W", "_", v["l"])
+    if t == "Vic":
+        # "the value inside a CSR": the content the CSR had on entry to the enclosing function
+        # (the handler idiom csrrw a0, uscratch, a0 ... sw t0, 0(a0) ... lw t0, 0(a0) relies on every
+        # register so tagged holding one and the same pointer)
+        return "(select CE %s)" % csr_index(v["n"])
     return None
 
 
@@ -86,6 +91,19 @@ def gamma(regs, mem, st):
         if t is not None:
             out.append(("reg x%d = %s" % (r, json.dumps(v)), "(= %s %s)" % (R(st, r), t)))
     for loc, v in mem:
+        if loc["t"] == "Csr":
+            t = val_term(v, st)
+            if t is not None:
+                out.append(("csr 0x%03x = %s" % (loc["n"], json.dumps(v)),
+                            "(= (select %s %s) %s)" % (st.get("c", "CS"), csr_index(loc["n"]), t)))
+            continue
+        if loc["t"] == "CsrMem":
+            t = val_term(v, st)
+            if t is not None:
+                addr = "(bvadd (select CE %s) %s)" % (csr_index(loc["n"]), bv32(loc["o"]))
+                out.append(("word at [csr 0x%03x on entry]%+d = %s" % (loc["n"], loc["o"], json.dumps(v)),
+                            "(= (select %s %s) %s)" % (st["m"], addr, t)))
+            continue
         if loc["t"] != "Stack":
             continue
         t = val_term(v, st)
@@ -95,10 +113,16 @@ def gamma(regs, mem, st):
     return out
 
 
+def csr_index(n):
+    return "(_ bv%d 12)" % (n & 0xFFF)
+
+
 def step(node, st, fresh):
-    """-> post state (dict) for one node; fresh() makes a new havoc constant."""
+    """-> post state (dict) for one node; fresh() makes a new havoc constant.
+    CSRs are plain 32-bit storage cells (array CS): a write stores the whole word and a read returns
+    the last word written; WARL field masking of particular CSRs is not modelled."""
     i = node["inst"]
-    post = {"r": dict(st["r"]), "m": st["m"]}
+    post = {"r": dict(st["r"]), "m": st["m"], "c": st.get("c", "CS")}
     if node["kind"] != "inst" or i is None:
         return post
 
@@ -139,7 +163,23 @@ def step(node, st, fresh):
             v = "(bvor (bvand %s (bvnot %s)) (bvand %s %s))" % (old, mask, v, mask)
         post["m"] = "(store %s %s %s)" % (st["m"], addr, v)
     elif k in ("Csr", "CsrImm"):
-        setr(i["rd"], fresh())
+        cs = st.get("c", "CS")
+        idx = csr_index(i["csr"])
+        old = "(select %s %s)" % (cs, idx)
+        src = R(st, i["rs1"]) if k == "Csr" else bv32(i["uimm"])
+        no_write = (k == "Csr" and i["rs1"] == 0) or (k == "CsrImm" and i["uimm"] == 0)
+        op = i["op"]
+        if op == "Rw":
+            new = src
+        elif op == "Rs":
+            new = None if no_write else "(bvor %s %s)" % (old, src)
+        elif op == "Rc":
+            new = None if no_write else "(bvand %s (bvnot %s))" % (old, src)
+        else:
+            raise ValueError("csr op %r" % op)
+        setr(i["rd"], old)
+        if new is not None:
+            post["c"] = "(store %s %s %s)" % (cs, idx, new)
     elif k == "System" and "ecall" in node["text"]:
         # RARS environment calls (documented service table): which services return a value in a0 / a1
         a7 = R(st, 17)
@@ -149,7 +189,106 @@ def step(node, st, fresh):
     return post
 
 
-def vcs_for(prog_nodes):
+def csr_untouched(nodes):
+    """Auxiliary invariant (ours, proved by the same VCs): the CSRs no path has written since the
+    enclosing entry.  The tool's "value inside a CSR" tag only means something relative to it:
+    forward must-analysis over the exported CFG, all CSRs named in the program, killed by every CSR
+    instruction that writes and by calls."""
+    def written(n):
+        i = n["inst"]
+        if n["kind"] != "inst" or i is None:
+            return set()
+        if n.get("call"):
+            return None   # everything
+        if i["k"] == "Csr" and (i["op"] == "Rw" or i["rs1"] != 0):
+            return {i["csr"]}
+        if i["k"] == "CsrImm" and (i["op"] == "Rw" or i["uimm"] != 0):
+            return {i["csr"]}
+        return set()
+    allc = set()
+    for n in nodes:
+        if n["kind"] == "inst" and n["inst"] and n["inst"]["k"] in ("Csr", "CsrImm"):
+            allc.add(n["inst"]["csr"])
+    u_in = [set(allc) for _ in nodes]
+    u_out = [set(allc) for _ in nodes]
+    changed = True
+    while changed:
+        changed = False
+        for idx, n in enumerate(nodes):
+            if n["kind"] in ("program_entry", "func_entry"):
+                ni = set(allc)
+            else:
+                preds = [p for p in n.get("prevs", []) if p >= 0]
+                ni = set(allc)
+                for p in preds:
+                    ni &= u_out[p]
+            w = written(n)
+            no = set() if w is None else ni - w
+            if ni != u_in[idx] or no != u_out[idx]:
+                u_in[idx], u_out[idx] = ni, no
+                changed = True
+    return u_in, u_out
+
+
+def ghost_terms(cs, st):
+    return [("[auxiliary] csr 0x%03x holds its entry content" % c,
+             "(= (select %s %s) (select CE %s))" % (st.get("c", "CS"), csr_index(c), csr_index(c))) for c in sorted(cs)]
+
+
+def houdini(nodes, decls):
+    """Strongest auxiliary invariant of the form "CSR c holds its entry content here", inferred with
+    the solver (Houdini): start from every candidate, drop the ones whose verification condition is
+    satisfiable, repeat until all the remaining ones are inductive.  Used when the syntactic
+    `csr_untouched` is too weak (a handler that swaps a register with uscratch twice restores it)."""
+    allc = set()
+    for n in nodes:
+        if n["kind"] == "inst" and n["inst"] and n["inst"]["k"] in ("Csr", "CsrImm"):
+            allc.add(n["inst"]["csr"])
+    base = {"r": {i: "r%d" % i for i in range(1, 32)}, "m": "M"}
+    u_out = [set(allc) for _ in nodes]
+    rounds = 0
+    while True:
+        rounds += 1
+        u_in = []
+        for idx, n in enumerate(nodes):
+            ni = set(allc)
+            if n["kind"] not in ("program_entry", "func_entry"):
+                for p in n.get("prevs", []):
+                    if p >= 0:
+                        ni &= u_out[p]
+            u_in.append(ni)
+        items, where = [], []
+        extra = []
+        cnt = [0]
+
+        def fresh():
+            cnt[0] += 1
+            name = "g%d" % cnt[0]
+            extra.append("(declare-const %s (_ BitVec 32))" % name)
+            return name
+        for idx, n in enumerate(nodes):
+            if n["kind"] in ("program_entry", "func_entry"):
+                continue
+            pre = [t for _, t in gamma(n["rin"], n["min"], base)] + [t for _, t in ghost_terms(u_in[idx], base)]
+            post = step(n, base, fresh)
+            if n.get("call"):
+                u_out[idx] = set()
+                continue
+            for _, t in ghost_terms(u_out[idx], post):
+                items.append((None, "(and %s (not %s))" % (" ".join(pre) or "true", t)))
+            where += [(idx, c) for c in sorted(u_out[idx])]
+        items = [(decls + extra, q) for _, q in items]
+        verdicts = solve(items) if items else []
+        removed = False
+        for (idx, c), v in zip(where, verdicts):
+            if v != "unsat":
+                u_out[idx].discard(c)
+                removed = True
+        if not removed or rounds > 50:
+            return (u_in, u_out), rounds
+
+
+def vcs_for(prog_nodes, ghost=None):
     """-> list of (description, node index, query string)"""
     counter = [0]
     decls = []
@@ -161,19 +300,23 @@ def vcs_for(prog_nodes):
         return n
     base = {"r": {i: "r%d" % i for i in range(1, 32)}, "m": "M"}
     out = []
+    u_in, u_out = ghost or csr_untouched(prog_nodes)
+
+    def gamma(regs, mem, st, ghost=None):   # noqa: F811  (the exported facts plus the auxiliary invariant)
+        return globals()["gamma"](regs, mem, st) + ghost_terms(ghost or (), st)
     for idx, n in enumerate(prog_nodes):
-        pre_claims = gamma(n["rin"], n["min"], base)
+        pre_claims = gamma(n["rin"], n["min"], base, u_in[idx])
         post = step(n, base, fresh)
         if n["kind"] in ("program_entry", "func_entry"):
             # VC0: at an entry the current registers ARE the entry registers
-            eq = " ".join("(= r%d e%d)" % (i, i) for i in range(1, 32))
+            eq = " ".join("(= r%d e%d)" % (i, i) for i in range(1, 32)) + " (= CS CE)"
             for what, t in gamma(n["rout"], n["mout"], base):
                 out.append(("VC0 entry fact %s" % what, idx, "(and %s (not %s))" % (eq, t)))
             continue
         pre = " ".join(t for _, t in pre_claims) or "true"
         if n["kind"] == "inst" and n["inst"] and n["inst"]["k"] == "System" and "ecall" in n["text"]:
             pre += " " + " ".join("(distinct r17 %s)" % bv32(x) for x in EXIT_SERVICES)
-        for what, t in gamma(n["rout"], n["mout"], post):
+        for what, t in gamma(n["rout"], n["mout"], post, u_out[idx]):
             out.append(("VC1 after '%s': %s" % (n["text"], what), idx, "(and %s (not %s))" % (pre, t)))
         for m in n["nexts"]:
             if m < 0:
@@ -181,8 +324,8 @@ def vcs_for(prog_nodes):
             succ = prog_nodes[m]
             if succ["kind"] in ("program_entry", "func_entry"):
                 continue
-            have = " ".join(t for _, t in gamma(n["rout"], n["mout"], base)) or "true"
-            for what, t in gamma(succ["rin"], succ["min"], base):
+            have = " ".join(t for _, t in gamma(n["rout"], n["mout"], base, u_out[idx])) or "true"
+            for what, t in gamma(succ["rin"], succ["min"], base, u_in[m]):
                 out.append(("VC2 edge '%s' -> '%s': %s" % (n["text"], succ["text"], what), idx, "(and %s (not %s))" % (have, t)))
     return out, decls
 
@@ -200,7 +343,8 @@ def labels_of(prog_nodes):
 
 def solve_cvc5(items, timeout_ms=20000):
     """Second opinion (used on the small families): the same queries through cvc5."""
-    lines = ["(set-logic QF_ABV)", "(declare-const M (Array (_ BitVec 32) (_ BitVec 32)))"]
+    lines = ["(set-logic QF_ABV)", "(declare-const M (Array (_ BitVec 32) (_ BitVec 32)))",
+             "(declare-const CS (Array (_ BitVec 12) (_ BitVec 32)))", "(declare-const CE (Array (_ BitVec 12) (_ BitVec 32)))"]
     lines += ["(declare-const r%d (_ BitVec 32))" % i for i in range(1, 32)]
     lines += ["(declare-const e%d (_ BitVec 32))" % i for i in range(1, 32)]
     for i, (decls, q) in enumerate(items):
@@ -224,7 +368,8 @@ def solve_cvc5(items, timeout_ms=20000):
 
 def solve(items, timeout_ms=20000):
     """items: list of (decls, query).  One z3 process, push/pop per query."""
-    lines = ["(set-logic QF_ABV)", "(set-option :produce-models true)", "(declare-const M (Array (_ BitVec 32) (_ BitVec 32)))"]
+    lines = ["(set-logic QF_ABV)", "(set-option :produce-models true)", "(declare-const M (Array (_ BitVec 32) (_ BitVec 32)))",
+             "(declare-const CS (Array (_ BitVec 12) (_ BitVec 32)))", "(declare-const CE (Array (_ BitVec 12) (_ BitVec 32)))"]
     lines += ["(declare-const r%d (_ BitVec 32))" % i for i in range(1, 32)]
     lines += ["(declare-const e%d (_ BitVec 32))" % i for i in range(1, 32)]
     for i, (decls, q) in enumerate(items):
@@ -247,7 +392,8 @@ def solve(items, timeout_ms=20000):
 
 
 def model_of(decls, q):
-    lines = ["(set-logic QF_ABV)", "(set-option :produce-models true)", "(declare-const M (Array (_ BitVec 32) (_ BitVec 32)))"]
+    lines = ["(set-logic QF_ABV)", "(set-option :produce-models true)", "(declare-const M (Array (_ BitVec 32) (_ BitVec 32)))",
+             "(declare-const CS (Array (_ BitVec 12) (_ BitVec 32)))", "(declare-const CE (Array (_ BitVec 12) (_ BitVec 32)))"]
     lines += ["(declare-const r%d (_ BitVec 32))" % i for i in range(1, 32)]
     lines += ["(declare-const e%d (_ BitVec 32))" % i for i in range(1, 32)]
     lines += decls + ["(assert %s)" % q, "(check-sat)",
@@ -279,6 +425,7 @@ def run(programs, cvc5_crosscheck=True):
                 r["verdict"], r["reason"] = "inconclusive", "pipeline: " + o["error"]
             continue
         nodes = o["nodes"]
+        r["_nodes"] = nodes
         vcs, decls = vcs_for(nodes)
         decls = decls + ["(declare-const la_%s (_ BitVec 32))" % l for l in labels_of(nodes)]
         r["claims"] = sum(len([1 for _, v in n["rout"] if v["t"] != "Other"]) + len([1 for l, v in n["mout"] if l["t"] == "Stack" and v["t"] != "Other"]) for n in nodes)
@@ -298,12 +445,40 @@ def run(programs, cvc5_crosscheck=True):
         if v == "unsat":
             continue
         if v == "sat":
-            m = model_of(decls, q)
-            r["failed"].append({"check": "[C01] claimed value is false in some execution: " + what, "node": idx,
-                                "model": {k: val for k, val in m.items() if val}, "reproduced": bool(m)})
+            r["failed"].append({"check": "[C01] claimed value is false in some execution: " + what, "node": idx, "_q": (decls, q)})
         else:
             r["inconclusive"] = "solver answered %s on: %s" % (v, what)
+    # second chance with a solver-inferred auxiliary invariant about CSR contents
     for r in results:
+        nodes = r.pop("_nodes", None)
+        if "verdict" in r or not r["failed"] or nodes is None or r.get("inconclusive"):
+            continue
+        if not any(n["kind"] == "inst" and n["inst"] and n["inst"]["k"] in ("Csr", "CsrImm") for n in nodes):
+            continue
+        ldecls = ["(declare-const la_%s (_ BitVec 32))" % l for l in labels_of(nodes)]
+        ghost, rounds = houdini(nodes, ldecls)
+        vcs, decls = vcs_for(nodes, ghost)
+        its = [(decls + ldecls, q) for _, _, q in vcs]
+        vs = solve(its)
+        r["queries"] += len(vcs)
+        r["houdini_rounds"] = rounds
+        r["failed"] = []
+        for (what, idx, q), v, (d, _) in zip(vcs, vs, its):
+            if v == "unsat":
+                continue
+            if v == "sat":
+                r["failed"].append({"check": "[C01] claimed value is false in some execution: " + what, "node": idx, "_q": (d, q)})
+            else:
+                r["inconclusive"] = "solver answered %s on: %s" % (v, what)
+    for r in results:
+        r.pop("_nodes", None)
+        # a model for what is reported: the concrete machine state in which the claim is false
+        for k, f in enumerate(r["failed"]):
+            if "_q" in f:
+                d, q = f.pop("_q")
+                m = model_of(d, q) if k < 3 else {}
+                f["model"] = {a: val for a, val in m.items() if val}
+                f["reproduced"] = bool(m) if k < 3 else False
         if "verdict" in r:
             continue
         if r["failed"]:
